@@ -415,6 +415,8 @@ def _extract_item(repo: str, header: str, tpl_name: str) -> Tuple[str, UnitInfo]
                 pat, rep = rule.split("==>", 1)
                 text, n = rt.rewrite(text, pat.strip(), rep.strip())
                 info.rewrites.append((rule, n))
+            if kv.get("derive"):
+                text = "#[derive(%s)]\n" % kv["derive"] + text
             if kv.get("vis") == "pub" and not text.startswith("pub"):
                 text = "pub " + text
             return text + "\n", info
